@@ -1068,7 +1068,7 @@ fn kind_cv(rng: &mut Rng, out: &mut Out, id: &str, tier: &str) {
     let mut extra = vec![];
     if w > 0 {
         extra.push(usize::MAX / w);
-        extra.push(usize::MAX / w + 1);
+        extra.push((usize::MAX / w).wrapping_add(1));
         extra.push((1usize << 63) / w.next_power_of_two());
         extra.push(1usize << (64 - w.min(63)));
     }
